@@ -133,7 +133,7 @@ def main(argv=None):
             inconclusive.append("watchdog fired on shard %s" % r["shard"].get("name"))
             continue
         if r["status"] == "crash":
-            inconclusive.append("worker crashed on shard %s rc=%s: %s" % (r["shard"].get("name"), r.get("rc"), r.get("stderr", "")[-600:]))
+            inconclusive.append("worker crashed on shard %s rc=%s: %s" % (r["shard"].get("name"), r.get("rc"), r.get("stderr", "")[-400:].replace("\n", " | ")))
             continue
         evaluations += r["evaluations"]
         nontrivial.update(r["nontrivial"])
